@@ -100,6 +100,7 @@ pub struct PSpace {
     pub pts: Vec<[f32; 2]>,
     pub x: f32,
     pub y: f32,
+    pub z: f32,
     pub azimuth: f32,
     pub stype: &'static str,
     pub conds: String,
@@ -329,6 +330,8 @@ pub fn gen_proj(rng: &mut Rng, o: &GenOpts) -> Proj {
                 pts,
                 x: x0,
                 y: 0.0,
+                // a split level: the space floor above / below the storey level
+                z: if rng.chance(1, 5) { *rng.pick(&[0.5f32, -0.4, 1.2]) } else { 0.0 },
                 azimuth: az,
                 stype: if rng.chance(4, 5) { "CONDITIONED" } else { "UNHABITED" },
                 conds: rng.pick(&conds).name.clone(),
@@ -498,6 +501,9 @@ pub fn print_proj(p: &Proj) -> String {
             }
             if sp.y != 0.0 {
                 w(&format!("            Y                 = {}", sp.y));
+            }
+            if sp.z != 0.0 {
+                w(&format!("            Z                 = {}", sp.z));
             }
             if sp.azimuth != 0.0 {
                 w(&format!("            AZIMUTH           = {}", sp.azimuth));
